@@ -515,7 +515,8 @@ func (c *BackendConn) freeStream() int16 {
 
 var HostileKinds = []string{"wrong-stream", "request-opcode-as-response", "short-error-body", "garbage-bytes", "reply-twice",
 	"huge-length-then-silence", "unprepared-for-cached-id", "unknown-result-kind", "garbage-event", "direction-bit-missing",
-	"truncated-rows", "error-with-bad-code", "zero-length-result"}
+	"truncated-rows", "error-with-bad-code", "zero-length-result",
+	"negative-stream-ready", "negative-stream-result", "min-stream-error", "max-stream-result", "unsolicited-ready-then-answer"}
 
 // hostile answers a request the way no healthy Cassandra node would (C17).
 func (c *BackendConn) hostile(kind int, stream int16, att *Attempt, tok string) {
@@ -565,6 +566,20 @@ func (c *BackendConn) hostile(kind int, stream int16, att *Attempt, tok string) 
 		c.Link.PeerWrite(append(hdr(stream, 0x00, 10), 0x7f, 0xff, 0xff, 0xff, 0, 4, 'o', 'o', 'p', 's'))
 	case "zero-length-result":
 		c.Link.PeerWrite(hdr(stream, 0x08, 0))
+	case "negative-stream-ready":
+		// stream ids below zero are reserved for events; a non-event frame carrying one is unsolicited
+		c.Link.PeerWrite(hdr(-1, 0x02, 0))
+	case "negative-stream-result":
+		c.Link.PeerWrite(encodeFrame(c.Compression, frame.NewFrame(c.Version, -2-int16(kind%7), tokenRows(tok, c.Version))))
+	case "min-stream-error":
+		c.Link.PeerWrite(append(hdr(-32768, 0x00, 10), 0, 0, 0, 0, 0, 4, 'o', 'o', 'p', 's'))
+	case "max-stream-result":
+		c.Link.PeerWrite(encodeFrame(c.Compression, frame.NewFrame(c.Version, 32767, tokenRows(tok, c.Version))))
+	case "unsolicited-ready-then-answer":
+		c.Link.PeerWrite(hdr(-1, 0x02, 0))
+		c.Link.PeerWrite(ok)
+		att.Replied = true
+		att.ReplyRaw = ok
 	}
 }
 
